@@ -9,7 +9,6 @@ import (
 	"log/slog"
 	"math"
 	"net/http"
-	"net/http/httptest"
 	"path"
 	"strconv"
 	"sync"
@@ -146,7 +145,10 @@ func (cm *cmafIngesterMgr) NewCmafIngester(req CmafIngesterSetup) (nr uint64, er
 
 	log := slog.Default().With(slog.Uint64("ingester", nr))
 
-	mpdReq := httptest.NewRequest("GET", req.URL, nil)
+	mpdReq, err := http.NewRequest("GET", req.URL, nil) // httptest.NewRequest panics on a malformed URL
+	if err != nil {
+		return 0, fmt.Errorf("bad livesimURL: %w", err)
+	}
 	if req.TestNowMS != nil {
 		mpdReq.URL.RawQuery = fmt.Sprintf("nowMS=%d", *req.TestNowMS)
 	}
